@@ -55,4 +55,9 @@ deriving DecidableEq, Repr
 inductive Direction | forward | backward
 deriving DecidableEq, Repr
 
+/-- Rust panics are outcomes of the model (slice out of range / off a char boundary, `unwrap` on
+    `None`, `unreachable!`, failed `assert!`, arithmetic overflow in a dev build). -/
+inductive Panic | panic
+deriving DecidableEq, Repr
+
 end Rl
